@@ -58,6 +58,46 @@ pub fn set_de_fail(tag: u32, at: Option<usize>) {
 pub fn clear_fails() {
     *SER_FAIL.lock().unwrap() = None;
     *DE_FAIL.lock().unwrap() = None;
+    set_de_gate(None);
+}
+
+// A "slow deserializer": the deserializer of the item with the gated tag, when it runs on a helper
+// thread (streamed items), waits at the start of the payload until the gate is opened.  While it
+// waits, the queue between the receiving task and the deserializer thread fills up and `recv` is
+// left waiting for queue space: the state in which the harness cancels it.
+static DE_GATE: Mutex<Option<(u32, std::thread::ThreadId)>> = Mutex::new(None);
+static DE_GATE_OPEN: (Mutex<bool>, std::sync::Condvar) = (Mutex::new(true), std::sync::Condvar::new());
+static DE_BLOCKED: std::sync::atomic::AtomicBool = std::sync::atomic::AtomicBool::new(false);
+
+/// arms (closes) the gate for `tag`; must be called on the runtime thread, which never waits at the gate
+pub fn set_de_gate(tag: Option<u32>) {
+    *DE_GATE.lock().unwrap() = tag.map(|t| (t, std::thread::current().id()));
+    *DE_GATE_OPEN.0.lock().unwrap() = tag.is_none();
+    DE_GATE_OPEN.1.notify_all();
+    DE_BLOCKED.store(false, Ordering::SeqCst);
+}
+
+pub fn open_de_gate() {
+    *DE_GATE_OPEN.0.lock().unwrap() = true;
+    DE_GATE_OPEN.1.notify_all();
+}
+
+/// a deserializer thread is waiting at the gate right now
+pub fn de_blocked() -> bool {
+    DE_BLOCKED.load(Ordering::SeqCst)
+}
+
+fn de_gate_wait(tag: u32) {
+    let armed = matches!(*DE_GATE.lock().unwrap(), Some((t, main)) if t == tag && main != std::thread::current().id());
+    if !armed {
+        return;
+    }
+    let mut open = DE_GATE_OPEN.0.lock().unwrap();
+    while !*open {
+        DE_BLOCKED.store(true, Ordering::SeqCst);
+        open = DE_GATE_OPEN.1.wait(open).unwrap();
+    }
+    DE_BLOCKED.store(false, Ordering::SeqCst);
 }
 
 fn ser_fail(tag: u32) -> Option<usize> {
@@ -178,6 +218,7 @@ impl<'de> Deserialize<'de> for Item {
                 let tag: u32 = seq.next_element()?.ok_or_else(|| serde::de::Error::custom("tag missing"))?;
                 let halves: Vec<rch::mpsc::Sender<u8>> =
                     seq.next_element()?.ok_or_else(|| serde::de::Error::custom("halves missing"))?;
+                de_gate_wait(tag);
                 let data = seq
                     .next_element_seed(BytesSeed { fail: de_fail(tag) })?
                     .ok_or_else(|| serde::de::Error::custom("payload missing"))?;
@@ -294,6 +335,56 @@ impl<F: Future> Future for CancelAt<F> {
             Poll::Pending => {
                 if this.left == 0 {
                     // make sure we are polled again so that the drop happens now, not at an arbitrary later wake-up
+                    cx.waker().wake_by_ref();
+                }
+                Poll::Pending
+            }
+        }
+    }
+}
+
+/// Drops the inner future once it has stayed pending for `rounds` consecutive polls during which
+/// `cond` held (and asks to be polled again every scheduler round while `cond` holds); yields `None` then.
+pub struct CancelWhen<F: Future, C: Fn() -> bool> {
+    inner: Option<Pin<Box<F>>>,
+    cond: C,
+    rounds: usize,
+    seen: usize,
+    /// self-wake budget (real time, the condition is set by a helper thread): afterwards the adaptor stops
+    /// asking to be polled again
+    until: std::time::Instant,
+}
+
+impl<F: Future, C: Fn() -> bool> CancelWhen<F, C> {
+    pub fn new(f: F, cond: C, rounds: usize) -> Self {
+        Self { inner: Some(Box::pin(f)), cond, rounds, seen: 0, until: std::time::Instant::now() + Duration::from_secs(20) }
+    }
+}
+
+impl<F: Future, C: Fn() -> bool + Unpin> Future for CancelWhen<F, C> {
+    type Output = Option<F::Output>;
+    fn poll(self: Pin<&mut Self>, cx: &mut Context) -> Poll<Self::Output> {
+        let this = unsafe { self.get_unchecked_mut() };
+        match this.inner.as_mut().expect("polled after completion").as_mut().poll(cx) {
+            Poll::Ready(v) => {
+                this.inner = None;
+                Poll::Ready(Some(v))
+            }
+            Poll::Pending => {
+                if (this.cond)() {
+                    this.seen += 1;
+                    if this.seen >= this.rounds {
+                        this.inner = None;
+                        return Poll::Ready(None);
+                    }
+                } else {
+                    this.seen = 0;
+                }
+                if std::time::Instant::now() < this.until {
+                    if this.seen == 0 {
+                        // give the helper thread a chance on a loaded machine
+                        std::thread::yield_now();
+                    }
                     cx.waker().wake_by_ref();
                 }
                 Poll::Pending
